@@ -35,6 +35,9 @@ def _is_cq_test(e: ast.AST, v: str) -> bool:
 
 def _key_ok(key: ast.AST, allow_else=True):
     """key = lambda v: (v.vehicle_state.enqueue_time, v.id) [if isinstance(...) else (C, v.id)] -> (ok, why, else_const)"""
+    if isinstance(key, ast.Name):
+        # a named key function the canonicaliser could not read as a lambda (statements it does not fold into one expression): not understood
+        raise AnalysisError(f"update order: the sort key `{key.id}` is a function the rule cannot read as one expression")
     if not isinstance(key, ast.Lambda) or len(key.args.args) != 1:
         return False, "sort key is not a one-argument lambda", None
     v = key.args.args[0].arg
